@@ -251,7 +251,8 @@ Diag ==
               \cup RowsDiag(Ev.rows, hist)
          [] Ev.e = "disk" /\ pc \in {"idle", "raised"} /\ disk # None ->
               Failed(<< <<"disk-batch-index", Ev.bi = disk[1].bi>>, <<"disk-sample-counter", Ev.ns = disk[1].ns>>,
-                        <<"disk-generator", Ev.rng = disk[1].rng>>, <<"disk-sampler-names", Ev.namesok>> >>)
+                        <<"disk-generator", Ev.rng = disk[1].rng>>, <<"disk-sampler-names", Ev.namesok /\ \A c \in DOMAIN Ev.names :
+                                                   \E cl \in DOMAIN disk[1].idt : disk[1].idt[cl] = Ev.names[c].id /\ cl = Ev.names[c].cls>> >>)
               \cup RowsDiag(Ev.rows, disk[1].hist)
          [] Ev.e = "disk" /\ pc \in {"idle", "raised"} /\ disk = None -> {"no-checkpoint-expected"}
          [] Ev.e = "ctor" -> {"constructor-exactly-one-of"}
